@@ -194,3 +194,18 @@ def leaf_dispatch_obligations():
     bad = [c.__name__ for c in cands if not (inspect.isclass(c) and issubclass(c, bt.Leaf) and c.__init__ in ok_inits)]
     return [_ob('cls:leaf-dispatch', bad, '%d classes reachable from the leaf tables: all are leaves built by Leaf / TypedLeaf / '
                 'ErrorLeaf.__init__' % len(cands), ['parso.python.parser.Parser.convert_leaf', 'parso.parser.BaseParser.convert_leaf'])]
+
+
+def python_tree_class_obligations():
+    """PYTREE (assumed by the navigation contracts that call Python-specific methods on children): every class the Python
+    parser can instantiate for an interior node derives from PythonBaseNode, PythonNode or PythonErrorNode, every leaf class
+    from PythonLeaf."""
+    bt = importlib.import_module('parso.tree')
+    pp = importlib.import_module('parso.python.parser')
+    pt = importlib.import_module('parso.python.tree')
+    nodes = list(pp.Parser.node_map.values()) + [pp.Parser.default_node, pt.PythonErrorNode, pt.Param]
+    leaves = list(pp.Parser._leaf_map.values()) + [pt.Operator, pt.Keyword, pt.Name, pt.PythonErrorLeaf]
+    bad = [c.__name__ for c in nodes if not (inspect.isclass(c) and issubclass(c, (pt.PythonBaseNode, pt.PythonNode, pt.PythonErrorNode)))]
+    bad += [c.__name__ for c in leaves if not (inspect.isclass(c) and issubclass(c, pt.PythonLeaf))]
+    return [_ob('cls:python-tree-classes', bad, '%d node classes derive from PythonBaseNode / PythonNode / PythonErrorNode (all carry PythonMixin), %d leaf classes from PythonLeaf'
+                % (len(nodes), len(leaves)), ['parso.python.parser.Parser.convert_node', 'parso.python.parser.Parser.convert_leaf'])]
